@@ -143,6 +143,42 @@ func (s *c17Shared) run(op c17Op) []byte {
 		}
 		ok, _ := sm2.Verify(s.data[op.j][:min(20, len(s.data[op.j]))], s.px[op.i], s.py[op.i], s.data[op.j], rr, ss)
 		return []byte(fmt.Sprintf("%x|%x|%v", rr, ss, ok))
+	case "za":
+		za, err := sm2.ZA(s.data[op.j][:min(20, len(s.data[op.j]))], s.px[op.i], s.py[op.i])
+		return []byte(fmt.Sprintf("%x|%v", za, err))
+	// calls that FAIL (rejected arguments): error paths release or skip what the success path sets up, and run next to valid calls
+	case "za-long-id":
+		za, err := sm2.ZA(c17LongID[:8192+op.j], s.px[op.i], s.py[op.i])
+		return []byte(fmt.Sprintf("%x|%v", za, err != nil))
+	case "sign-long-id":
+		r := gen.RandBytes(randFrom(op.seed), 96)
+		rr, ss, err := sm2.Sign(c17LongID, s.px[op.i], s.py[op.i], bytes.NewReader(r), s.d[op.i], s.data[op.j])
+		return []byte(fmt.Sprintf("%x|%x|%v", rr, ss, err != nil))
+	case "verify-long-id":
+		ok, err := sm2.Verify(c17LongID, s.px[op.i], s.py[op.i], s.data[op.j], s.sigR[op.i], s.sigS[op.i])
+		return []byte(fmt.Sprint(ok, err != nil))
+	case "sign-bad-key":
+		r := gen.RandBytes(randFrom(op.seed), 96)
+		rr, ss, err := sm2.SignHashed(bytes.NewReader(r), c17ZeroKey, s.e[op.j])
+		return []byte(fmt.Sprintf("%x|%x|%v", rr, ss, err != nil))
+	case "sign-dead-reader":
+		rr, ss, err := sm2.SignHashed(bytes.NewReader(c17ZeroKey[:7+op.j]), s.d[op.i], s.e[op.j])
+		return []byte(fmt.Sprintf("%x|%x|%v", rr, ss, err != nil))
+	case "verify-malformed":
+		ok, err := sm2.VerifyHashed(s.px[op.i], s.py[op.i][:31], s.e[op.i], s.sigR[op.i], s.sigS[op.i])
+		ok2, err2 := sm2.VerifyHashed(s.px[op.i], s.py[op.i], s.e[op.i], c17ZeroKey, s.sigS[op.i])
+		return []byte(fmt.Sprint(ok, err != nil, ok2, err2 != nil))
+	case "derive-bad-key":
+		x, y, err := sm2.DerivePublic(c17ZeroKey)
+		return []byte(fmt.Sprintf("%x|%x|%v", x, y, err != nil))
+	case "open-short":
+		m := s.msgs[op.i]
+		pt, err := s.aeads[m.aead].Open(nil, m.nonce, m.ct[:min(len(m.ct), 5+op.j)], m.aad)
+		return append([]byte(fmt.Sprint(err != nil, "|")), pt...)
+	case "newcipher-bad-key":
+		_, err := sm4.NewCipher(s.key[:15])
+		_, err2 := sm4.NewCipher(append(append([]byte(nil), s.key...), 0))
+		return []byte(fmt.Sprint(err != nil, err2 != nil))
 	case "hash":
 		h := sm3.New()
 		d := s.data[op.i]
@@ -159,11 +195,17 @@ func (s *c17Shared) run(op c17Op) []byte {
 	panic("unknown op " + op.kind)
 }
 
-var c17Kinds = []string{"encrypt", "decrypt", "seal", "seal", "open", "open", "open-forged", "newcipher", "derive-aead", "derive-aead", "gc", "sign", "verify", "verify", "verify-bad", "derive", "genkey", "signmsg", "hash", "sumsm3", "oncurve"}
+var c17Kinds = []string{"encrypt", "decrypt", "seal", "seal", "open", "open", "open-forged", "newcipher", "derive-aead", "derive-aead", "gc", "sign", "verify", "verify", "verify-bad", "derive", "genkey", "signmsg", "signmsg", "za", "za", "hash", "sumsm3", "oncurve",
+	"za-long-id", "sign-long-id", "verify-long-id", "sign-bad-key", "sign-dead-reader", "verify-malformed", "derive-bad-key", "open-short", "newcipher-bad-key"}
+
+var (
+	c17LongID  = make([]byte, 8192+8) // rejected by ZA (ENTL does not fit 16 bits)
+	c17ZeroKey = make([]byte, 32)
+)
 
 func TestVerif_C17_Concurrent(t *testing.T) {
 	rec := stats.Get("C17", "concurrent")
-	rec.Rule("rapid draws a workload plan: 2..16 goroutines x 3..25 operations from {Encrypt, Decrypt on ONE shared Block; Seal, Open, forged Open on shared AEADs (nonce 12/16/130 bytes, tag 16/12) over SHARED nonce/aad/plaintext/ciphertext buffers; NewCipher+NewGCM on the shared key; short-lived AEADs derived from the SHARED Block and dropped, explicit GC cycles (finalizers); SignHashed / Sign+Verify with per-operation deterministic readers, VerifyHashed (good and bad), DerivePublic, GenerateKey, CheckOnCurve/TestPrivateKey on shared keys; independent sm3 hashes and SumSM3 over shared data}; message lengths from the kernel-combination generator. The plan runs serially first (expected results), then concurrently behind a barrier with GOMAXPROCS=16 under the race detector. Oracles: each concurrent result == its serial result; all shared buffers byte-identical afterwards; the plan re-run serially afterwards reproduces the original results (a deep hash of every package-level variable of the six packages is taken before/after and differences are reported, not judged: a synchronised cache is legal); no race report. Non-trivial: >= 2 goroutines operate on the same message buffer or the same AEAD/Block (true for essentially every plan); distinct by plan.")
+	rec.Rule("rapid draws a workload plan: 2..16 goroutines x 3..25 operations from {Encrypt, Decrypt on ONE shared Block; Seal, Open, forged Open on shared AEADs (nonce 12/16/130 bytes, tag 16/12) over SHARED nonce/aad/plaintext/ciphertext buffers; NewCipher+NewGCM on the shared key; short-lived AEADs derived from the SHARED Block and dropped, explicit GC cycles (finalizers); SignHashed / Sign+Verify with per-operation deterministic readers, VerifyHashed (good and bad), DerivePublic, GenerateKey, ZA, CheckOnCurve/TestPrivateKey on shared keys; calls that are REJECTED (over-long id in ZA/Sign/Verify, zero key, exhausted reader, malformed coordinates/signature, ciphertext shorter than the tag, wrong key size) interleaved with the valid ones; independent sm3 hashes and SumSM3 over shared data}; message lengths from the kernel-combination generator. The plan runs serially first (expected results), then concurrently behind a barrier with GOMAXPROCS=16 under the race detector. Oracles: each concurrent result == its serial result; all shared buffers byte-identical afterwards; the plan re-run serially afterwards reproduces the original results (a deep hash of every package-level variable of the six packages is taken before/after and differences are reported, not judged: a synchronised cache is legal); no race report. Non-trivial: >= 2 goroutines operate on the same message buffer or the same AEAD/Block (true for essentially every plan); distinct by plan.")
 	t.Cleanup(stats.FlushAll)
 	globals := c17Globals()
 	rapid.Check(t, func(t *rapid.T) {
@@ -221,6 +263,10 @@ func TestVerif_C17_Concurrent(t *testing.T) {
 			for k := 0; k < n; k++ {
 				op := c17Op{kind: c17Kinds[gen.Uniform(t, "kind", 0, len(c17Kinds)-1)], seed: int64(gen.Uniform(t, "opseed", 0, 1<<30))}
 				switch op.kind {
+				case "open-short":
+					op.i, op.j = gen.Uniform(t, "msg", 0, nm-1), gen.Uniform(t, "idx", 0, 8)
+				case "za-long-id":
+					op.i, op.j = gen.Uniform(t, "key", 0, 1), gen.Uniform(t, "idx", 0, 8)
 				case "seal", "open", "open-forged":
 					op.i = gen.Uniform(t, "msg", 0, nm-1)
 					touch[fmt.Sprint("msg", op.i)]++
@@ -231,7 +277,7 @@ func TestVerif_C17_Concurrent(t *testing.T) {
 				default:
 					op.i, op.j = gen.Uniform(t, "key", 0, 1), gen.Uniform(t, "idx", 0, 1)
 				}
-				if op.kind == "signmsg" {
+				if op.kind == "signmsg" || op.kind == "za" || op.kind == "sign-long-id" || op.kind == "verify-long-id" {
 					op.j = gen.Uniform(t, "idx", 0, 2)
 				}
 				plan[g] = append(plan[g], op)
